@@ -302,6 +302,7 @@ static int remoteSync(MPT_INTERFACE(output) *out, int timeout)
 		if (pos < 0 || pos > (int) sizeof(uintptr_t)) {
 			mpt_log(0, _func, MPT_LOG(Error), "%s (%i)",
 			        MPT_tr("bad message id"), pos);
+			buf->_used = smax;
 			return MPT_ERROR(BadValue);
 		}
 		if ((ans = mpt_command_get(&od->con._wait, ansid))) {
@@ -315,13 +316,21 @@ static int remoteSync(MPT_INTERFACE(output) *out, int timeout)
 			
 			/* request is answered: waiting command is consumed */
 			ans->cmd = 0;
-			if (reply(ans->arg, &msg) < 0) {
+			pos = reply(ans->arg, &msg);
+			/* processed datagram is no part of next outgoing message */
+			if ((buf = od->con.out.buf._buf)
+			    && !(od->con.out.state & MPT_OUTFLAG(Active))
+			    && buf->_used > smax) {
+				buf->_used = smax;
+			}
+			if (pos < 0) {
 				return 0;
 			}
 			continue;
 		}
 		mpt_log(0, _func, MPT_LOG(Error), "%s (%" PRIx64 ")",
 		        MPT_tr("bad reply id"), ansid);
+		buf->_used = smax;
 		return MPT_ERROR(BadValue);
 	}
 }
